@@ -1,12 +1,218 @@
-/- C15 — property theorems (filled below). -/
-import SkNet.Model.LinOp
+/-
+C15 — linear operators and conversion utilities equal their dense definitions.
+
+`OpExpr` (Model/LinOp.lean) are the operator expressions built from SparseLR, Regularizer, Normalizer,
+Laplacian, CoNeighbor, Polynome by negation, sum, difference, scaling, transposition, left / right sparse
+product, type change, `normalize` and the format conversions; `OpExpr.eval` evaluates them as the code does
+(Python's dispatch, the constructors' checks, the loops over the low-rank tuples, Horner's scheme);
+`OpExpr.denote` (Spec/LinOp.lean) is the dense matrix written with elementary matrix algebra.
+All theorems are for matrices of any size over ℚ.
+-/
+import SkNet.Lemmas.LinOpExpr
 import SkNet.Model.Convert
-import SkNet.Spec.LinOp
 import SkNet.Spec.Convert
 
 namespace SkNet.C15
 open SkNet SkNet.LinOp SkNet.Convert
 
-theorem pinv_zero : pinv 0 = 0 := by simp [pinv]
+/-! ## ★ denote_op : operator expressions -/
+
+/-- **denote_op.** Whatever expression `e` is evaluated successfully to an operator `o`
+(regularisations of Normalizer / Laplacian leaves non-negative), the dense matrix of `o` is the
+matrix `e` denotes: same shape, same entries. By structural induction over `OpExpr`. -/
+theorem denote_op (e : OpExpr) (hreg : e.RegNonneg = true) (o : Op) (h : e.eval = .ok o) :
+    Mat.Eqv o.dense e.denote :=
+  (OpExpr.denote_spec e hreg o h).2
+
+/-- **Applying the operator to a vector is multiplying by the dense matrix it denotes**:
+`operator.dot(x)` for the value of any expression. -/
+theorem denote_op_dot (e : OpExpr) (hreg : e.RegNonneg = true) (o : Op) (h : e.eval = .ok o)
+    (v y : Vec) (hy : o.dot v = .ok y) : y = e.denote.mulVec v := by
+  obtain ⟨hw, he⟩ := OpExpr.denote_spec e hreg o h
+  unfold Op.dot at hy
+  split at hy
+  · rename_i hv
+    cases hy
+    rw [Op.matvec_eq_dense o v hw hv]
+    exact Mat.Eqv.mulVec he v
+  · cases hy
+
+/-- the dot product is refused exactly when the length of the vector is not the number of columns
+of the denoted matrix -/
+theorem denote_op_dot_error (e : OpExpr) (hreg : e.RegNonneg = true) (o : Op) (h : e.eval = .ok o) (v : Vec) :
+    (o.dot v = .error .valueError) ↔ v.length ≠ e.denote.nCol := by
+  obtain ⟨hw, he⟩ := OpExpr.denote_spec e hreg o h
+  have hc : o.nCol = e.denote.nCol := by rw [← (Op.dense_shape o hw).2]; exact he.nCol
+  unfold Op.dot
+  rw [hc]
+  by_cases hv : v.length = e.denote.nCol <;> simp [hv]
+
+/-- **Transposed**: `operator.T.dot(x)` multiplies by the transposed dense matrix. -/
+theorem denote_op_transpose_dot (e : OpExpr) (hreg : e.RegNonneg = true) (o : Op)
+    (h : (OpExpr.transpose e).eval = .ok o) (v y : Vec) (hy : o.dot v = .ok y) :
+    y = e.denote.transpose.mulVec v :=
+  denote_op_dot (.transpose e) (by simpa [OpExpr.RegNonneg] using hreg) o h v y hy
+
+/-- **2-d arrays**: `operator.dot(X)` (scipy stacks `_matvec` of the columns) is the matrix product
+by the dense matrix. -/
+theorem denote_op_dotMat (e : OpExpr) (hreg : e.RegNonneg = true) (o : Op) (h : e.eval = .ok o)
+    (x y : Mat) (hy : o.dotMat x = .ok y) : Mat.Eqv y (e.denote.mul x) := by
+  obtain ⟨hw, he⟩ := OpExpr.denote_spec e hreg o h
+  obtain ⟨hr, hc⟩ := Op.dense_shape o hw
+  unfold Op.dotMat at hy
+  split at hy
+  · rename_i hx
+    cases hy
+    refine ⟨by simp [Mat.ofCols, ← hr, he.nRow], by simp [Mat.ofCols], fun i k => ?_⟩
+    unfold Mat.ofCols
+    rw [Mat.get_ofFn, Mat.get_mul]
+    by_cases hik : i < o.nRow ∧ k < x.nCol
+    · simp only [hik, and_self, if_true]
+      rw [Op.matvec_eq_dense o _ hw (by simp [Mat.col, hx]), Mat.Eqv.mulVec he, Mat.vget_mulVec]
+      apply sumTo_congr; intro j hj
+      unfold Mat.col
+      rw [vget_tab]
+      have : j < x.nRow := by rw [hx, ← hc, he.nCol]; exact hj
+      simp [this]
+    · simp only [hik, if_false]
+      symm; apply sumTo_eq_zero; intro j _
+      by_cases hi : i < o.nRow
+      · have hk : x.nCol ≤ k := Nat.le_of_not_lt (fun c => hik ⟨hi, c⟩)
+        rw [Mat.get_of_col_ge j hk]; ring
+      · rw [Mat.get_of_row_ge j (by rw [← he.nRow, hr]; exact Nat.le_of_not_lt hi)]; ring
+  · cases hy
+
+/-- **the 2-d branches of `_matvec`** (SparseLR, Normalizer and its transposed product, CoNeighbor) multiply
+by the dense matrix as well -/
+theorem matvec2d_slr (s : SLR) (x : Mat) : Mat.Eqv (s.matmat x) (s.dense.mul x) := SLR.matmat_eqv_dense s x
+
+theorem matvec2d_normalizer (n : Normalizer) (x : Mat) (hx : x.nRow = n.adj.nCol) :
+    Mat.Eqv (n.matmat x) (n.dense.mul x) ∧ Mat.Eqv (n.rmatmat x) (n.dense.transpose.mul x) :=
+  ⟨Normalizer.matmat_eqv_dense n x hx, Normalizer.rmatmat_eqv_dense n x⟩
+
+/-- **row, column and total sums of a SparseLR** are the sums of the dense matrix it denotes -/
+theorem slr_sums (e : OpExpr) (hreg : e.RegNonneg = true) (s : SLR) (h : e.eval = .ok (.slr s)) :
+    s.sum1 = e.denote.rowSums ∧ (∀ y, s.sum0 = .ok y → y = e.denote.transpose.rowSums) ∧
+      s.sumAll = vsum e.denote.rowSums := by
+  obtain ⟨hw, he⟩ := OpExpr.denote_spec e hreg _ h
+  have h1 : s.sum1 = e.denote.rowSums := by rw [SLR.sum1_eq]; exact Mat.Eqv.rowSums he
+  refine ⟨h1, fun y hy => ?_, by unfold SLR.sumAll; rw [h1]⟩
+  rw [SLR.sum0_eq hw hy]
+  exact Mat.Eqv.rowSums (Mat.Eqv.transpose he)
+
+/-- non-vacuity: `(2 * (SparseLR(S, [(x, y)]) + Regularizer(A, 1/2))).T` applied to a vector,
+`S, A` rectangular 2 × 3 with a null row -/
+def exampleExpr : OpExpr :=
+  .transpose (.mul (.add (.slr ⟨2, 3, [[1, 2, 0], [0, 0, 0]]⟩ [([1, -1], [1, 0, 2])])
+    (.regularizer ⟨2, 3, [[0, 0, 3], [0, 0, 0]]⟩ (1/2))) 2)
+
+example : exampleExpr.RegNonneg = true := by decide
+example : (exampleExpr.eval.toOption.map fun o => (o.nRow, o.nCol)) = some (3, 2) := by decide +kernel
+example : (exampleExpr.eval.toOption.bind fun o => (o.dot [1, 2]).toOption) = some [1, 5, 3] := by decide +kernel
+
+/-- non-vacuity for the generic scipy combinators: `Normalizer(A, 1) - Laplacian(A)` -/
+def exampleExpr2 : OpExpr :=
+  .sub (.normalizer ⟨2, 2, [[0, 1], [0, 0]]⟩ 1) (.laplacian ⟨2, 2, [[0, 1], [0, 0]]⟩ 0 false [])
+
+example : exampleExpr2.RegNonneg = true := by decide
+example : (exampleExpr2.eval.toOption.bind fun o => (o.dot [1, 1]).toOption) = some [1, 1] := by decide +kernel
+
+/-- the hypothesis `RegNonneg` is needed: the code tests `regularization > 0`, so a negative value enters
+the degrees but not the product (outside the domain of the property) -/
+theorem normalizer_negative_regularization_differs :
+    ((OpExpr.normalizer ⟨1, 2, [[2, 2]]⟩ (-2)).eval.toOption.bind fun o => (o.dot [1, 0]).toOption) = some [1]
+      ∧ (OpExpr.normalizer ⟨1, 2, [[2, 2]]⟩ (-2)).denote.mulVec [1, 0] = [1/2] := by
+  decide +kernel
+
+/-! ## ★ the operator classes one by one -/
+
+/-- **SparseLR**: `_matvec` is the product by `S + Σ x yᵀ` (no hypothesis at all) -/
+theorem sparselr_matvec (s : SLR) (v : Vec) : s.matvec v = s.dense.mulVec v := SLR.matvec_eq_dense s v
+
+/-- **Regularizer** denotes `A + reg · 1 1ᵀ / n_col` and always constructs -/
+theorem regularizer_denote (a : Mat) (reg : Rat) :
+    ∃ s, regularizer a reg = .ok s ∧ Mat.Eqv s.dense (regularized a reg) := by
+  obtain ⟨s, hs⟩ := regularizer_ok a reg
+  exact ⟨s, hs, (regularizer_dense hs).2⟩
+
+/-- **Normalizer**: product and transposed product (the repaired `_rmatvec`, finding F16) -/
+theorem normalizer_matvec (n : Normalizer) (v : Vec) (hv : v.length = n.adj.nCol) :
+    n.matvec v = n.dense.mulVec v := Normalizer.matvec_eq_dense n v hv
+
+theorem normalizer_rmatvec (n : Normalizer) (v : Vec) : n.rmatvec v = n.dense.transpose.mulVec v :=
+  Normalizer.rmatvec_eq_dense n v
+
+/-- **Normalizer** denotes `D⁺ (A + reg/n 1 1ᵀ)` with `D` the row sums of the regularised matrix -/
+theorem normalizer_denote (a : Mat) (reg : Rat) (hreg : 0 ≤ reg) :
+    Mat.Eqv (Normalizer.init a reg).dense (rowNormalized (regularized a reg)) :=
+  Normalizer.init_dense a reg hreg
+
+/-- before the repair `Normalizer._transpose` returned the operator itself: on the asymmetric
+`A = [[0,2,0],[0,0,0],[1,0,3]]` the product `N x` differs from `Nᵀ x` (witness replayed in corpus/C15.jsonl) -/
+theorem normalizer_transpose_pinned_wrong :
+    let n := Normalizer.init ⟨3, 3, [[0, 2, 0], [0, 0, 0], [1, 0, 3]]⟩ 0
+    n.matvec [1, 2, 3] ≠ n.dense.transpose.mulVec [1, 2, 3] := by
+  decide +kernel
+
+/-- **Laplacian**: product, transposed operator (repaired `_transpose`), constructor -/
+theorem laplacian_matvec (l : Laplacian) (v : Vec) (hsq : l.lap.nCol = l.lap.nRow) (hv : v.length = l.lap.nRow) :
+    l.matvec v = l.dense.mulVec v := Laplacian.matvec_eq_dense l v hsq hv
+
+theorem laplacian_transpose (l : Laplacian) (hsq : l.lap.nCol = l.lap.nRow) :
+    Mat.Eqv l.transpose.dense l.dense.transpose := Laplacian.transpose_dense l hsq
+
+example : ∃ l, Laplacian.init ⟨2, 2, [[0, 1], [3, 0]]⟩ (1/2) false [] = .ok l ∧ l.lap.nCol = l.lap.nRow :=
+  ⟨_, rfl, rfl⟩
+
+/-- `laplacian_eq D − A`: the constructor gives `D' − A'` of the regularised adjacency, conjugated by
+`diag(1/sqrt(d'))⁺` when normalised -/
+theorem laplacian_denote (a : Mat) (reg : Rat) (nz : Bool) (sq : Vec) (l : Laplacian)
+    (h : Laplacian.init a reg nz sq = .ok l) (hreg : 0 ≤ reg) :
+    Mat.Eqv l.dense (OpExpr.laplacian a reg nz sq).denote := Laplacian.init_dense h hreg
+
+/-- **CoNeighbor** denotes `A F⁺ Aᵀ`, its product is `backward (forward x)` -/
+theorem coneighbor_matvec (c : CoNeighbor) (v : Vec) : c.matvec v = c.dense.mulVec v :=
+  CoNeighbor.matvec_eq_dense c v
+
+theorem coneighbor_denote (a : Mat) (nz : Bool) (c : CoNeighbor) (h : CoNeighbor.init a nz = .ok c) :
+    Mat.Eqv c.dense (OpExpr.coneighbor a nz).denote := CoNeighbor.init_dense h
+
+/-! ## ★ horner_eq_powersum, polynome_transpose -/
+
+/-- **horner_eq_powersum.** The Ruffini–Horner loop of `Polynome._matvec` computes `(Σ_k c_k M^k) v`. -/
+theorem horner_eq_powersum (m : Mat) (hsq : m.nCol = m.nRow) (cs : List Rat) (hcs : cs ≠ []) (v : Vec)
+    (hv : v.length = m.nRow) :
+    Polynome.matvec ⟨m, cs⟩ v = (polySum m cs 0).mulVec v := by
+  rw [← powerSum_eq_polySum]; exact Polynome.matvec_eq_dense m hsq cs hcs v hv
+
+example : Polynome.matvec ⟨⟨2, 2, [[0, 1], [2, 0]]⟩, [1, 2, 3]⟩ [1, 1] = [9, 11] := by decide +kernel
+
+/-- **polynome_transpose.** `Polynome(Mᵀ, coeffs)` denotes the transposed polynomial. -/
+theorem polynome_transpose (m : Mat) (hsq : m.nCol = m.nRow) (cs : List Rat) :
+    Mat.Eqv (polySum m.transpose cs 0) (polySum m cs 0).transpose := by
+  rw [← powerSum_eq_polySum, ← powerSum_eq_polySum]; exact Polynome.powerSum_transpose m hsq cs 0
+
+/-- a Polynome is refused exactly for no coefficient, an empty matrix (`check_format`) or a non-square one -/
+theorem polynome_init_error (a : Mat) (cs : List Rat) :
+    (∃ p, Polynome.init a cs = .ok p) ↔ (cs ≠ [] ∧ a.isNull = false ∧ a.nRow = a.nCol) := by
+  unfold Polynome.init
+  by_cases h1 : cs.isEmpty
+  · have : cs = [] := List.isEmpty_iff.mp h1
+    simp [h1, this]
+  · have hne : cs ≠ [] := fun e => h1 (by simp [e])
+    by_cases h2 : a.isNull
+    · simp [h1, h2]
+    · by_cases h3 : a.nRow = a.nCol <;> simp [h1, h2, h3, hne]
+
+/-! ## ★ pseudo_inverse -/
+
+/-- **pseudo_inverse**: null weights stay null, the others are inverted -/
+theorem pseudo_inverse (w : Rat) : (w = 0 → pinv w = 0) ∧ (w ≠ 0 → pinv w * w = 1) := by
+  unfold pinv
+  refine ⟨fun h => by simp [h], fun h => ?_⟩
+  simp only [h, if_false]
+  rw [one_div, inv_mul_cancel₀ h]
+
+theorem pinvVec_spec (w : Vec) (i : Nat) : vget (pinvVec w) i = pinv (vget w i) := vget_pinvVec w i
 
 end SkNet.C15
